@@ -98,5 +98,19 @@ pub use self::transform::Quaternion;
 pub use self::transform::Transform;
 pub use self::transform::Translation;
 
+/// Verification hooks (only compiled with `--cfg e57_verif`): re-exports of internal
+/// building blocks so that an external model checker can drive them directly.
+#[cfg(e57_verif)]
+#[doc(hidden)]
+pub mod verif {
+    pub use crate::bitpack::BitPack;
+    pub use crate::bs_read::ByteStreamReadBuffer;
+    pub use crate::bs_write::ByteStreamWriteBuffer;
+    #[cfg(not(feature = "crc32c"))]
+    pub use crate::crc32::Crc32;
+    pub use crate::paged_reader::PagedReader;
+    pub use crate::paged_writer::PagedWriter;
+}
+
 /// Storage container for low level point data.
 pub type RawValues = Vec<RecordValue>;
